@@ -15,7 +15,10 @@
 EXTENDS Integers, Sequences, FiniteSets, TLC
 CONSTANTS NR,               \* max number of style rules (besides the variable-defining :root block)
           RootPostOverwrites, \* TRUE = before the repair: the :root/html post-pass restores the pre-parsed declarations (F4)
-          FallbackWritten     \* FALSE = before the repair: var(--x, fallback) is counted but nothing is written (F5)
+          FallbackWritten,    \* FALSE = before the repair: var(--x, fallback) is counted but nothing is written (F5)
+          CarryInvalid,       \* FALSE = before the repair: a re-serialised rule that holds something the CSS library cannot parse as a
+                              \*         declaration (the star hack "*zoom: 1") aborts the whole file - nothing is written (F11)
+          HackPositions       \* rule positions that may hold such a declaration (one per stylesheet; {} in the large configurations)
 Vars == {"x", "y"}
 Pal == 0..4            \* 0 unfixable, 1 fixable, 2 ok on L / fixable on G, 3 ok everywhere, 4 not a colour
 Bgs == {"L", "G"}
@@ -31,8 +34,10 @@ ColExprs == {NoneE} \cup {<<"lit", k>> : k \in Pal} \cup {<<"var", v>> : v \in V
             \cup {<<"varfb", p[1], <<"var", p[2]>>>> : p \in {q \in Vars \X Vars : q[1] # q[2]}}      \* var(--v, var(--w))
 VarDefs == {<<"undef">>} \cup {<<"lit", k>> : k \in {1, 2, 3}} \cup {<<"var", v>> : v \in Vars}
 Rules == [root : BOOLEAN, col : ColExprs, bg : {"none"} \cup Bgs]
-VARIABLES tab, phase, sheet0, vdef, rules, i, acc, tuned, failed, cards, failedSel, rootDirty
-vars == <<tab, phase, sheet0, vdef, rules, i, acc, tuned, failed, cards, failedSel, rootDirty>>
+VARIABLES tab, phase, sheet0, vdef, rules, i, acc, tuned, failed, cards, failedSel, rootDirty,
+          hackAt,    \* 0, or the position of the rule that holds an unparsable declaration next to its colour
+          aborted    \* the file could not be re-serialised: no output is written (what was counted and reported stays reported)
+vars == <<tab, phase, sheet0, vdef, rules, i, acc, tuned, failed, cards, failedSel, rootDirty, hackAt, aborted>>
 Out(t, b) == IF <<t, b>> \in DOMAIN tab THEN tab[<<t, b>>] ELSE <<"invalid">>
 McTab == [p \in Pal \X Bgs |-> McOut(p[1], p[2])]
 \* ---- variable resolution as the code does it (visited set, fallback) ----
@@ -53,12 +58,14 @@ Res(e, vd, visited) ==
 \* then frozen as sheet0 and processed
 Init == /\ tab = McTab /\ phase = "build" /\ vdef \in [Vars -> VarDefs] /\ rules = <<>> /\ sheet0 = <<>>
         /\ i = 1 /\ acc = 0 /\ tuned = 0 /\ failed = 0 /\ cards = {} /\ failedSel = {} /\ rootDirty = {}
+        /\ hackAt = 0 /\ aborted = FALSE
 AddRule == /\ phase = "build" /\ Len(rules) < NR
            /\ \E r \in Rules : rules' = Append(rules, r)
-           /\ UNCHANGED <<tab, phase, sheet0, vdef, i, acc, tuned, failed, cards, failedSel, rootDirty>>
+           /\ UNCHANGED <<tab, phase, sheet0, vdef, i, acc, tuned, failed, cards, failedSel, rootDirty, hackAt, aborted>>
 Start == /\ phase = "build" /\ Len(rules) >= 1
          /\ phase' = "run" /\ sheet0' = <<vdef, rules>>
-         /\ UNCHANGED <<tab, vdef, rules, i, acc, tuned, failed, cards, failedSel, rootDirty>>
+         /\ hackAt' \in {0} \cup {k \in HackPositions : k <= Len(rules)}
+         /\ UNCHANGED <<tab, vdef, rules, i, acc, tuned, failed, cards, failedSel, rootDirty, aborted>>
 Process ==
   /\ phase = "run" /\ i <= Len(rules)
   /\ LET r == rules[i] IN
@@ -90,11 +97,15 @@ Process ==
                             /\ rootDirty' = IF r.root THEN rootDirty \cup {i} ELSE rootDirty
                             /\ UNCHANGED vdef
                     /\ UNCHANGED <<acc, failed, failedSel>>
-  /\ i' = i + 1 /\ UNCHANGED <<sheet0, phase, tab>>
+  \* the rule's own declaration list is re-serialised exactly when its colour declaration was rewritten (rules changes at i)
+  /\ aborted' = (aborted \/ (~CarryInvalid /\ hackAt = i /\ rules'[i] # rules[i]))
+  /\ i' = i + 1 /\ UNCHANGED <<sheet0, phase, tab, hackAt>>
 \* post-pass: :root/html rules are re-serialised from the declarations parsed before processing (F4)
 Post == /\ phase = "run" /\ i = Len(rules) + 1
         /\ rules' = [k \in 1..Len(rules) |-> IF RootPostOverwrites /\ k \in rootDirty THEN sheet0[2][k] ELSE rules[k]]
-        /\ i' = i + 1 /\ UNCHANGED <<tab, phase, sheet0, vdef, acc, tuned, failed, cards, failedSel, rootDirty>>
+        \* (every :root / html rule is re-serialised here, adjusted or not)
+        /\ aborted' = (aborted \/ (~CarryInvalid /\ hackAt # 0 /\ rules[hackAt].root))
+        /\ i' = i + 1 /\ UNCHANGED <<tab, phase, sheet0, vdef, acc, tuned, failed, cards, failedSel, rootDirty, hackAt>>
 Next == AddRule \/ Start \/ Process \/ Post
 Spec == Init /\ [][Next]_vars
 Done == phase = "run" /\ i = Len(rules) + 2
@@ -103,7 +114,11 @@ Colored == {k \in 1..Len(rules) : sheet0[2][k].col # NoneE}
 Partition == Done => acc + tuned + failed = Cardinality(Colored)
 CardMeetsTarget == Done => \A c \in cards : Out(c[2], c[3])[1] = "pass"
 FailedUnchanged == Done => \A k \in failedSel : rules[k] = sheet0[2][k]
-ReportedIsWritten == Done => \A c \in cards : Eff(c[1]) = c[2]
+\* the colour IN THE WRITTEN FILE (there is none when the file was aborted)
+Written(k, c) == ~aborted /\ Eff(k) = c
+ReportedIsWritten == Done => \A c \in cards : Written(c[1], c[2])
+\* C09: a valid stylesheet always gets its output file
+OutputWritten == Done => ~aborted
 \* input classes of the known findings
 F4(k) == sheet0[2][k].root /\ sheet0[2][k].col[1] = "lit"
 F5(k) == sheet0[2][k].col[1] = "varfb"
@@ -120,6 +135,6 @@ ChainOf(e, seen) ==
 F6(k) == \E k2 \in (k+1)..Len(rules) : \E v \in ChainOf(sheet0[2][k].col, {}) : UsesVar(k2, v)
 \* F4 and F5 are repaired in the code; their classes only matter for the regression configurations
 ReportedIsWrittenModuloKnown == Done => \A c \in cards :
-   Eff(c[1]) = c[2] \/ F6(c[1]) \/ (RootPostOverwrites /\ F4(c[1])) \/ (~FallbackWritten /\ F5(c[1]))
-ReportedIsWrittenModuloF6 == Done => \A c \in cards : Eff(c[1]) = c[2] \/ F6(c[1])
+   Written(c[1], c[2]) \/ F6(c[1]) \/ (RootPostOverwrites /\ F4(c[1])) \/ (~FallbackWritten /\ F5(c[1]))
+ReportedIsWrittenModuloF6 == Done => \A c \in cards : Written(c[1], c[2]) \/ F6(c[1])
 ====
